@@ -49,3 +49,52 @@ def model_val(m, t):
     if z3.is_false(v):
         return False
     return str(v)
+
+
+def ast_from_source(it, src, mode="exec", file="<verif>"):
+    """Interpreted-AST (SObj tree) of real Python source, annotated the way guppylang annotates
+    function ASTs (file/source/line_offset on every node)."""
+    import ast as _ast
+    from pyvc.astmodel import to_sobj
+    from pyvc import SObj
+    tree = _ast.parse(src, mode=mode)
+    root = to_sobj(it, tree)
+    seen = set()
+
+    def ann(o):
+        if isinstance(o, SObj):
+            if id(o) in seen:
+                return
+            seen.add(id(o))
+            o.fields.setdefault("file", file)
+            o.fields.setdefault("source", src)
+            o.fields.setdefault("line_offset", 1)
+            for v in list(o.fields.values()):
+                ann(v)
+        elif isinstance(o, list):
+            for x in o:
+                ann(x)
+    ann(root)
+    return root
+
+
+def find_ast(root, clsname, pred=None):
+    """All interpreted-AST nodes of the given class below root (pre-order)."""
+    from pyvc import SObj
+    out, seen = [], set()
+
+    def walk(o):
+        if isinstance(o, SObj):
+            if id(o) in seen:
+                return
+            seen.add(id(o))
+            if o.cls.name == clsname and (pred is None or pred(o)):
+                out.append(o)
+            for k, v in o.fields.items():
+                if k in o.cls.lookup("_fields")[0] if o.cls.lookup("_fields")[0] else False:
+                    walk(v)
+        elif isinstance(o, list):
+            for x in o:
+                walk(x)
+    walk(root)
+    return out
